@@ -11,7 +11,7 @@ import (
 func init() {
 	register(&Rule{
 		ID:    "C20.okflag",
-		Props: []string{"C20", "C09", "C15", "C02"},
+		Props: []string{"C20", "C09", "C15", "C02", "C18", "C12", "C14", "C01"},
 		Doc:   "comma-ok typestate: for every call of a repository function whose last result is a validity flag (XY, Coordinates, getLine, MinMaxXYs, AsBox, Distance, …; computed as: last result bool, another non-bool result, and some return has the flag constant false), every use of a value result is dominated by the flag being true, is forwarded together with the flag, or the value is discarded",
 		Floor: 60,
 		Run:   runOkFlag,
